@@ -698,3 +698,33 @@ Lemma field_func_not_editable_lemma : forall r inp, find_setter "BaseSource" "fi
   forallb (fun cr : string * list (string * Z) =>
     String.eqb (fst cr) "CustomSource" || res_eqb (assign_func (fst cr) r inp) Crash) registered = true.
 Proof. intros r inp Hf. vm_compute in Hf. inversion Hf; subst r. destruct inp; vm_compute; reflexivity. Qed.
+
+(* ------------------------------------------------------------------ the guards exist now *)
+Lemma no_gap_rows_lemma : forall d, In d doc_table -> gap_row d = false.
+Proof.
+  intros d Hin. assert (H : forallb (fun d => negb (gap_row d)) doc_table = true) by (vm_compute; reflexivity).
+  rewrite forallb_forall in H. specialize (H d Hin). now apply negb_true_iff in H.
+Qed.
+
+Lemma no_value_gap_lemma : forall d inp, input_value_gap d inp = false.
+Proof.
+  intros d [| | |s vals]; try reflexivity. unfold input_value_gap, value_gap.
+  destruct (d_value d); reflexivity.
+Qed.
+
+Lemma assign_iff_documented_full_lemma : forall d r inp,
+  In d doc_table -> find_setter (d_class d) (d_attr d) = Some r -> wf_vinput inp ->
+  (doc_accepts d inp = true -> exists v, assign_vec r inp = Stored v) /\
+  (doc_accepts d inp = false -> assign_vec r inp = Rejected).
+Proof.
+  intros d r inp Hin Hf Hwf. apply assign_iff_documented_lemma; auto.
+  - now rewrite (no_gap_rows_lemma d Hin).
+  - apply no_value_gap_lemma.
+Qed.
+
+Lemma accepts_iff_documented_full_lemma : forall d r s,
+  In d doc_table -> find_setter (d_class d) (d_attr d) = Some r -> shape_nonneg s ->
+  (accepts_shape r s = Ok <-> in_doc (d_shape d) s = true).
+Proof.
+  intros d r s Hin Hf Hs. apply accepts_iff_documented_lemma; auto. now rewrite (no_gap_rows_lemma d Hin).
+Qed.
